@@ -42,6 +42,21 @@ var Items = []Item{
 	{ID: "assign-andnot", Setup: "var x uint64 = 0xff", Core: "x &^= 0x0f\n\tr = x"},
 	{ID: "struct-equal", Decls: "type P%N% struct {\n\ta uint64\n\tb bool\n}", Setup: "p := P%N%{a: 1, b: true}\n\tq := P%N%{a: 1, b: true}", Core: "if p == q {\n\t\tr = 1\n\t}"},
 
+	// operators and update statements with an EFFECTFUL operand: if they are ever accepted, the operand must be evaluated exactly once (seeded change C02-7)
+	{ID: "op-andnot-effectful-left", Decls: "func bmp%N%(p *uint64) uint64 {\n\t*p = *p + 1\n\treturn *p\n}", Setup: "c := new(uint64)", Core: "r = bmp%N%(c) &^ 4\n\tr = r*10 + *c"},
+	{ID: "op-andnot-effectful-right", Decls: "func bmp%N%(p *uint64) uint64 {\n\t*p = *p + 1\n\treturn *p\n}", Setup: "c := new(uint64)\n\ta := uint64(0xff)", Core: "r = a &^ bmp%N%(c)\n\tr = r*10 + *c"},
+	{ID: "op-unary-minus-effectful", Decls: "func bmp%N%(p *uint64) uint64 {\n\t*p = *p + 1\n\treturn *p\n}", Setup: "c := new(uint64)", Core: "r = -bmp%N%(c)\n\tr = r*10 + *c"},
+	{ID: "opassign-effectful-rhs", Decls: "func bmp%N%(p *uint64) uint64 {\n\t*p = *p + 1\n\treturn *p\n}", Setup: "c := new(uint64)\n\tvar x uint64 = 6", Core: "x *= bmp%N%(c)\n\tr = x*10 + *c"},
+	{ID: "opassign-index-effectful", Decls: "func bmp%N%(p *uint64) uint64 {\n\t*p = *p + 1\n\treturn *p\n}", Setup: "c := new(uint64)\n\ts := make([]uint64, 4)", Core: "s[bmp%N%(c)] += 5\n\tr = s[1]*100 + s[2]*10 + *c"},
+	{ID: "incdec-index-effectful", Decls: "func bmp%N%(p *uint64) uint64 {\n\t*p = *p + 1\n\treturn *p\n}", Setup: "c := new(uint64)\n\ts := make([]uint64, 4)", Core: "s[bmp%N%(c)]++\n\tr = s[1]*100 + s[2]*10 + *c"},
+	{ID: "opassign-field-of-call", Decls: "type Oc%N% struct {\n\ta uint64\n\tn uint64\n}\n\nfunc (o *Oc%N%) self() *Oc%N% {\n\to.n = o.n + 1\n\treturn o\n}", Setup: "o := &Oc%N%{a: 1}", Core: "o.self().a += 5\n\tr = o.a*10 + o.n"},
+	{ID: "opassign-map-effectful-key", Decls: "func bmp%N%(p *uint64) uint64 {\n\t*p = *p + 1\n\treturn *p\n}", Setup: "c := new(uint64)\n\tm := make(map[uint64]uint64)", Core: "m[bmp%N%(c)] += 5\n\tr = m[1]*100 + m[2]*10 + *c"},
+	{ID: "shift-effectful-count", Decls: "func bmp%N%(p *uint64) uint64 {\n\t*p = *p + 1\n\treturn *p\n}", Setup: "c := new(uint64)\n\ta := uint64(3)", Core: "r = a << bmp%N%(c)\n\tr = r*10 + *c"},
+	{ID: "pointer-compare", Setup: "p := new(uint64)\n\tq := new(uint64)", Core: "if p != q {\n\t\tr = 1\n\t}\n\tif p == p {\n\t\tr += 2\n\t}"},
+	{ID: "slice-compare-nil-after-append", Setup: "var s []uint64", Core: "s = append(s, 1)\n\tif s != nil {\n\t\tr = 1\n\t}"},
+	{ID: "map-compare-nil", Setup: "m := make(map[uint64]uint64)", Core: "if m != nil {\n\t\tr = 1\n\t}"},
+	{ID: "bool-compare", Setup: "a := true\n\tb := false", Core: "if a != b {\n\t\tr = 1\n\t}"},
+
 	// ---- conversions ----
 	{ID: "conv-int", Setup: "a := uint64(1) << 40", Core: "r = uint64(int(a))"},
 	{ID: "conv-uint16", Setup: "a := uint64(0x12345)", Core: "r = uint64(uint16(a))"},
